@@ -269,6 +269,10 @@ def gen(rng):
         if rng.random() < 0.5:
             args[-1] = '--boundary=circular'
             args += ['--radial-count=%d' % rng.choice([8, 32]), '--radial-radius=0.001']
+    elif r < 0.5:
+        # three media: the middle one has its own boundary coordinate
+        args += ['--medium=13,0.005,0,%r' % rng.choice([10.0, 20.0]), '--medium=5,0.001,%r,%r' % (rng.choice([0.0, -1.0]), rng.choice([40.0, 60.5])),
+                 '--medium=80,4,%r' % rng.choice([-2.0, -1.0]), '--boundary=%s' % rng.choice(['linear', 'circular'])]
     return {'args': args, 'by_geo': rng.random() < 0.5}
 
 
